@@ -572,10 +572,10 @@ class World:
         PT = smod.PlayerThread
 
         def start(pt):
+            sched.yield_point('thread.start', None)      # yield, then act
             ct = sched.spawn(f'seat{len(world.player_threads)}', pt.run)
             pt._baton = ct
             world.player_threads.append(pt)
-            sched.yield_point('thread.start', None)
 
         def is_alive(pt):
             sched.yield_point('is_alive', None)
